@@ -1,10 +1,143 @@
 import Driver.Util
+import Hv.Conc.LockMap
 
-/-! Placeholder: the line-protocol driver of domain C28 is not written yet. -/
+/-! Line-protocol driver for the lock-map model (domain C28). Same ops and reply format as
+    `/verif/harness/c28.go`; histories are sequential, so every `Lock` call runs
+    `call; getQueue; enqueue` (with the retry of the pruning variant) and a removal that marks a
+    queue dead is followed at once by its `unmap`.  A reply carries `#F:C28-queues-never-pruned`
+    when nothing is queued any more and the map still has entries. -/
 namespace Driver.C28
+open Hv.LockMap
 
-def run (_args : List String) : IO UInt32 := do
-  IO.eprintln "drv: domain C28 has no driver yet"
-  return 2
+structure Sess where
+  key : Nat
+  short : Bool
+  cancelled : Bool := false
+  acquired : Bool := false
+  gone : Bool := false
+  expired : Bool := false
+  released : Bool := false
+
+structure DSt where
+  cfg : Cfg
+  s : St := init
+  sess : List Sess := []
+
+def getSess (d : DSt) (n : Nat) : Option Sess := if n = 0 then none else d.sess[n - 1]?
+def setSess (d : DSt) (n : Nat) (x : Sess) : DSt := { d with sess := d.sess.set (n - 1) x }
+
+def act (d : DSt) (a : Act) : DSt :=
+  match step d.cfg d.s a with
+  | some s' => { d with s := s' }
+  | none => d
+
+def holdersMax (d : DSt) : Nat :=
+  let keys := d.sess.map (·.key)
+  keys.foldl (fun m k => max m ((d.sess.filter (fun x => x.key == k && x.acquired && !x.released)).length)) 0
+
+def tail (d : DSt) : String :=
+  let e := d.s.map.length
+  let q := queued d.s
+  s!"entries={e} queued={q} holders={holdersMax d}" ++ (if q == 0 && e > 0 then "\t#F:C28-queues-never-pruned" else "")
+
+/-- the queue object currently mapped for a key -/
+def objOf (d : DSt) (k : Nat) : Option Nat := d.s.map.lookup k
+
+/-- `getQueue; enqueue`, retrying while the queue obtained is dead (bounded: sequentially the
+    retry happens at most once) -/
+def enqueueLoop (d : DSt) (id k : Nat) : Nat → DSt
+  | 0 => d
+  | fuel + 1 =>
+    let d := act d (.getQueue id k)
+    match d.s.calls.find? (·.id == id) with
+    | some c =>
+      match c.ptr with
+      | some i =>
+        let d := act d (.enqueue id k i)
+        if d.s.calls.any (·.id == id) then enqueueLoop d id k fuel else d
+      | none => d
+    | none => d
+
+/-- remove `id` from the queue mapped for `k`; run the pending `unmap`s -/
+def removeVia (d : DSt) (id k : Nat) : DSt × Bool :=
+  match objOf d k with
+  | none => (d, false)
+  | some i =>
+    let found := match d.s.objs[i]? with
+      | some o => decide (id ∈ o.q.callers)
+      | none => false
+    let d := act d (.remove id i)
+    (d.s.unmapPending.foldl (fun d j => act d (.unmap j)) d, found)
+
+/-- after a removal the new head (a parked waiter) acquires -/
+def settle (d : DSt) (k : Nat) : DSt :=
+  match (objOf d k).bind (fun i => d.s.objs[i]?) with
+  | some o =>
+    o.q.ready.foldl (fun d id =>
+      match getSess d id with
+      | some x => if !x.acquired && !x.gone then setSess d id { x with acquired := true } else d
+      | none => d) d
+  | none => d
+
+def sessArg (d : DSt) (ns : String) : Option (Nat × Sess) :=
+  ns.toNat?.bind (fun n => (getSess d n).map (fun x => (n, x)))
+
+def stepLine (d : DSt) (line : String) : DSt × String :=
+  match words line with
+  | ["case", _] => ({ d with s := init, sess := [] }, line)
+  | ["lock", ks, ttl] =>
+    match ks.toNat? with
+    | none => (d, "bad-op")
+    | some k =>
+      let n := d.sess.length + 1
+      let d := { d with sess := d.sess ++ [{ key := k, short := ttl == "short" }] }
+      let d := act d (.call n k)
+      let d := enqueueLoop d n k 3
+      let granted := match (objOf d k).bind (fun i => d.s.objs[i]?) with
+        | some o => decide (n ∈ o.q.ready)
+        | none => false
+      if granted then
+        let d := setSess d n { key := k, short := ttl == "short", acquired := true }
+        (d, s!"enq {n} acq {tail d}")
+      else (d, s!"enq {n} wait {tail d}")
+  | ["unlock", ns] =>
+    match sessArg d ns with
+    | none => (d, s!"skip {tail d}")
+    | some (n, x) =>
+      if !x.acquired then (d, s!"skip {tail d}") else
+      let d := setSess d n { x with released := true }
+      let (d, found) := removeVia d n x.key
+      let d := settle d x.key
+      (d, s!"unlock {n} {if found then "ok" else "err"} {tail d}")
+  | ["expire", ns] =>
+    match sessArg d ns with
+    | none => (d, s!"skip {tail d}")
+    | some (n, x) =>
+      if !x.acquired || !x.short || x.expired then (d, s!"skip {tail d}") else
+      let inq := match (objOf d x.key).bind (fun i => d.s.objs[i]?) with
+        | some o => decide (n ∈ o.q.callers)
+        | none => false
+      let d := setSess d n { x with expired := true, released := x.released || inq }
+      let (d, found) := removeVia d n x.key
+      let d := settle d x.key
+      (d, s!"expire {n} {if found then "removed" else "noop"} {tail d}")
+  | ["cancel", ns] =>
+    match sessArg d ns with
+    | none => (d, s!"skip {tail d}")
+    | some (n, x) =>
+      if x.cancelled then (d, s!"skip {tail d}") else
+      let x := { x with cancelled := true }
+      if x.acquired || x.gone then (setSess d n x, s!"cancel {n} noop {tail d}") else
+      let d := setSess d n { x with gone := true }
+      let (d, _) := removeVia d n x.key
+      let d := settle d x.key
+      (d, s!"cancel {n} removed {tail d}")
+  | ["count"] => (d, s!"count {tail d}")
+  | _ => (d, "bad-op")
+
+def run (args : List String) : IO UInt32 := do
+  let kv := parseArgs args
+  lineLoop stepLine { cfg := { prune := arg kv "prune" == "yes" } }
+  return 0
 
 end Driver.C28
